@@ -197,6 +197,10 @@ var c12expectGroups = []struct{ name, body string }{
 	{"Tags", `\{.+\}`},
 }
 
+// the quote-aware Tags pattern of proposed-fixes/F12a.diff: the token ends at the first run of `}` outside a double-quoted
+// segment that is not directly followed by a byte that continues a value; the model lexer implements both
+const c12TagsQuoteAware = `\{(?:[^}"\n]|"(?:[^"\\\n]|\\.)*"|\}+[^\s}"])+\}+(?: *\})*`
+
 func init() {
 	generators["C12"] = func() {
 		g := &c12gen{structs: map[string][]c12field{}}
@@ -272,6 +276,7 @@ func init() {
 		// ---- lexer facts
 		var keywords []string
 		groupsOk := true
+		tagsQuoteAware := false
 		if !lexFound {
 			problem("C12: var lqlLexer not found in pkg/lql/parser.go")
 			groupsOk = false
@@ -309,6 +314,8 @@ func init() {
 							}
 							keywords = append(keywords, k)
 						}
+					} else if name == "Tags" && body == c12TagsQuoteAware {
+						tagsQuoteAware = true
 					} else if body != c12expectGroups[i].body {
 						groupsOk = false
 						problem("C12: the lexer pattern of %s changed to %q; the hand-written model lexer implements %q", name, body, c12expectGroups[i].body)
@@ -317,6 +324,7 @@ func init() {
 			}
 		}
 		fmt.Fprintf(&sb, "/-- the token groups of `lqlLexer` are, in order, blanks, Keyword, Ident, String, Operator, Number, Tags and the\nnon-keyword groups have the pattern text the hand-written model lexer implements -/\ndef lexerGroupsAsModelled : Bool := %s\n\n", leanBool(groupsOk))
+		fmt.Fprintf(&sb, "/-- the Tags group is the quote-aware pattern (ends at the first `}`-run outside a quoted segment that nothing continues)\ninstead of the greedy `\\{.+\\}` -/\ndef tagsQuoteAware : Bool := %s\n\n", leanBool(tagsQuoteAware))
 		sb.WriteString("/-- the alternatives of the lexer's case-insensitive Keyword group, in order -/\ndef keywords : List (List UInt8) := [\n")
 		for i, k := range keywords {
 			sep := ","
